@@ -252,5 +252,5 @@ func TestC03(t *testing.T) {
 	if r.Replays() {
 		return
 	}
-	core.Rapid(r, "subject", r.Pick(4000, 150000), genC03, wrap)
+	core.Rapid(r, "subject", r.Pick(4000, 500000), genC03, wrap)
 }
